@@ -14,6 +14,8 @@ structure Player where
   globals : List String := []
   counted : List String := []
   seed : Int := 0
+  /-- names that have (had) an observer, polled around story-running calls -/
+  observed : List String := []
 
 namespace Player
 
@@ -90,7 +92,7 @@ def finish (p : Player) (res : Json) (st : Story) : Json × Player :=
     | r, _ => r
   (res', { p with story := some { st with events := [] } })
 
-/-- execute one op -/
+/-- execute one op (see `run` for the event filter applied around it) -/
 def exec (p : Player) (op : Json) (readFile : String → Option (List Char)) : Json × Player :=
   let a : List Json := match op with | .arr xs => xs | _ => []
   let name := argStr a 0
@@ -104,7 +106,9 @@ def exec (p : Player) (op : Json) (readFile : String → Option (List Char)) : J
   else match p.story with
   | none => (.obj [("r", .str "nostory")], p)
   | some st =>
-    if name == "observe_all" then (resOk (p.observe st), p)
+    if name == "observe_all" then
+      -- reading the choices renumbers them in the story (as `get_current_choices` does)
+      (resOk (p.observe st), { p with story := some (st.currentChoices).2 })
     else if name == "handler" then p.finish (resOk .null) { st with handler := true }
     else if name == "fallbacks" then p.finish (resOk .null) { st with allowFallbacks := argBool a 1 }
     else if name == "seed" then
@@ -186,7 +190,11 @@ def exec (p : Player) (op : Json) (readFile : String → Option (List Char)) : J
           Json.obj [("ret", optValJson rv.1), ("text", .str rv.2)]) r) st1
     else if name == "observe" then
       match st.observeVariable (argStr a 1) (argStr a 2) with
-      | (r, st1) => p.finish (ofOut (fun _ => Json.null) r) st1
+      | (r, st1) =>
+        let p' := match r with
+          | .ok _ => { p with observed := if p.observed.contains (argStr a 1) then p.observed else p.observed ++ [argStr a 1] }
+          | _ => p
+        p'.finish (ofOut (fun _ => Json.null) r) st1
     else if name == "unobserve" then
       let var : Option String := match a[2]? with | some (Json.str s) => some s | _ => none
       match st.removeVariableObserver (argStr a 1) var with
@@ -208,5 +216,38 @@ def exec (p : Player) (op : Json) (readFile : String → Option (List Char)) : J
                     ("snapshot", .bool st.snapshot.isSome), ("unsafe", .bool st.sawUnsafe),
                     ("tmp", .bool false)]), p)
     else (.obj [("r", .str "badop")], p)
+
+/-- Execute one op as the harness does: observer notifications of a
+    story-running call whose value equals the value polled before the call are
+    dropped (the engine records "changed" by `Rc` identity, which the model does
+    not have; the property only speaks about values that differ). -/
+def run (p : Player) (op : Json) (readFile : String → Option (List Char)) : Json × Player :=
+  let name := match op with | .arr (.str n :: _) => n | _ => ""
+  let runsStory := ["cont", "contasync", "maximally", "eval", "reset", "path", "choose"].contains name
+  let before : List (String × Json) := match p.story with
+    | some st => if runsStory then p.observed.map (fun v => (v, optValJson (st.getVariableHost v))) else []
+    | none => []
+  let (res, p') := p.exec op readFile
+  if !runsStory then (res, p')
+  else
+    let keep (e : Json) : Bool := match e with
+      | .arr [.str "obs", _, .str n, v] =>
+        (match alGet before n with
+        | some b => !(b == v)
+        | none => true)
+      | _ => true
+    let res' := match res with
+      | .obj kvs =>
+        let kvs' := kvs.filterMap (fun kv =>
+          if kv.1 == "ev" then
+            (match kv.2 with
+            | .arr evs =>
+              let evs' := evs.filter keep
+              if evs'.isEmpty then none else some ("ev", Json.arr evs')
+            | other => some ("ev", other))
+          else some kv)
+        Json.obj kvs'
+      | r => r
+    (res', p')
 
 end Player
